@@ -216,6 +216,41 @@ def rule_flag_id(ctx, py):
     ctx.floor(R, 6)
 
 
+def rule_py_zero(ctx, py):
+    """C03.PY-ZERO -- the per-entry derivative of the kinetics functions: every path that returns a computed rate has passed
+    the chemostat test of this entry with a negative answer, and the positive answer returns zero.  (Which entry is tested is
+    C03.PY-KIND.)"""
+    R = "C03.PY-ZERO"
+    from .. import pysym
+    for q in ("kinetics._compute_dspeciesdt_grid", "kinetics._compute_dspeciesdt_graph"):
+        f = py.fn(q)
+        rets = []
+
+        class C(pya.PyFacts):
+            def ret(self, s, cfg):
+                rets.append((s.src, cfg))
+        ir.Engine(C(), "must").run(ir.py_to_ir(f.body))
+        ctx.need(rets, R, "%s: no return reached" % q)
+        zero_seen = False
+        for node, cfg in rets:
+            t = pyfe.src(node.value).replace(" ", "") if node.value is not None else ""
+            is_zero = t.startswith("UnitValue(0,") or t.startswith('UnitValue("0') or t.startswith("UnitValue('0")
+            tested_no = any(pol is False and isinstance(a, str) and "get_chemostat(" in a for a, pol in cfg)
+            tested_yes = any(pol is True and isinstance(a, str) and "get_chemostat(" in a and " and " not in a and " or " not in a
+                             for a, pol in cfg)
+            if is_zero:
+                zero_seen = zero_seen or tested_yes
+                ctx.check(tested_yes, R, node, q, "return 0 where the entry is chemostated", "",
+                          "zero is returned on a path that has not found the entry chemostated")
+            else:
+                ctx.check(tested_no, R, node, q, "return %s" % pyfe.src(node.value)[:50], "reached only past the chemostat test "
+                          "of this entry, answered no, on every path", "a path returns the computed rate without having tested "
+                          "the chemostat flag of the entry (for instance when a loop that contains the test runs zero times): a "
+                          "chemostated entry gets a non-zero derivative")
+        ctx.check(zero_seen, R, f, q, "a chemostated entry yields zero", "", "no path returns zero for a chemostated entry")
+    ctx.floor(R, 6)
+
+
 def run(ctx):
     tu, py = ctx.cx, ctx.py
     rule_guard_id(ctx, tu)
@@ -225,6 +260,7 @@ def run(ctx):
     ctx.floor("C03.TRANSPOSE", 2)
     rule_py_kind(ctx, py)
     rule_flag_id(ctx, py)
+    rule_py_zero(ctx, py)
     # the map the engines consult is the map of the system: it crosses the ctypes boundary as an int array built by
     # make_ctypes_array(..., c_int) (a raw numpy buffer is int64 on this platform: every flag but the first lands elsewhere)
     from .. import ffi
